@@ -3750,6 +3750,13 @@ static void generate_toplevel_globals(StringBuilder *sb, ASTNode *program, Envir
 
         bool is_const_init = is_c_constant_initializer(item->as.let.value);
 
+        if (!is_const_init && sym && !item->as.let.is_mut) {
+            /* This constant is initialised at run time (nl_init_toplevel below).  The value the compile-time
+             * evaluator computed for the shadow tests must not be inlined at its uses: the initialiser may read
+             * the environment (getcwd, getenv, time, files) of the process it runs in. */
+            sym->value = create_void();
+        }
+
         if (!item->as.let.is_mut && is_const_init) {
             /* Emit true constants as C constants */
             sb_append(sb, "static const ");
